@@ -1,5 +1,4 @@
 #!/usr/bin/env python3
-<<<<<<< HEAD
 """Runs every fact extractor once (used by setup.sh so that `lake build Dawgs` finds all generated tables)."""
 import glob, importlib, os, sys
 sys.path.insert(0, os.path.dirname(os.path.abspath(__file__)))
@@ -10,15 +9,3 @@ for f in sorted(glob.glob(os.path.join(os.path.dirname(os.path.abspath(__file__)
     if r:
         r(None)
         print("regen", mod.SPEC["id"], "ok")
-=======
-"""Runs SPEC["regen"] of every lib/props/cXX.py (fact extractors -> lean/Dawgs/Generated/*.lean), so that a plain
-`lake build Dawgs` (setup.sh) finds the generated tables. ./check regenerates them again on every run."""
-import glob, importlib, os, sys
-sys.path.insert(0, os.path.dirname(os.path.abspath(__file__)))
-for f in sorted(glob.glob(os.path.join(os.path.dirname(os.path.abspath(__file__)), "props", "c*.py"))):
-    mod = importlib.import_module("props." + os.path.basename(f)[:-3])
-    regen = getattr(mod, "SPEC", {}).get("regen")
-    if regen:
-        regen(None)
-        print("regenerated facts for", mod.SPEC["id"])
->>>>>>> build-c13
